@@ -25,7 +25,7 @@ STATE = {"n": 0, "phase": "run", "fired": False}
 
 KINDS = {
     "black.format_str": ["raise", "garbage", "different"],
-    "format-command": ["nonzero", "garbage", "different", "oserror", "latin1"],
+    "format-command": ["nonzero", "garbage", "different", "oserror", "latin1", "empty"],
     "read_text": ["oserror"],
     "ensure_import": ["runtime"],
     "persist": ["oserror", "runtime"],
@@ -99,6 +99,9 @@ def install():
                 return subprocess.CompletedProcess(cmd, 3, b"", b"injected failure")
             if kind == "garbage":
                 return subprocess.CompletedProcess(cmd, 0, b"def (:\n", b"")
+            if kind == "empty":
+                # a command that formats the file on disk and prints nothing
+                return subprocess.CompletedProcess(cmd, 0, b"", b"")
             r = orig_run(cmd, *a, **kw)
             if kind == "different":
                 return subprocess.CompletedProcess(cmd, 0, r.stdout + b"\n# injected trailing comment\n", b"")
